@@ -337,6 +337,27 @@ func Run(r *mc.Run) {
 			return true
 		})
 
+	// ---- D: reused receiver ----
+	reuse := []string{"1.0", "1:2.0-3", "2.1", "0:1", "1-1", "3:4", "5-6-7", "1.0~rc1", " 2.0 ", "", "x", "1:", "7:1.0-1+b2"}
+	reuse = append(reuse, gen.AuditStrings(gen.Versionish, 3)...)
+	r.Scenario("D-decode-into-reused-value", map[string]interface{}{"strings": reuse, "entry_points": "UnmarshalControl UnmarshalText json.Unmarshal", "pairs": len(reuse) * len(reuse)}, len(reuse), func(i int, st *mc.Stats) bool {
+		for _, y := range reuse {
+			for _, via := range []string{"control", "text", "json"} {
+				in := ReuseIn{reuse[i], y, via}
+				st.Evals++
+				st.Traces++
+				st.Nontrivial++
+				if v := checkReuse("D-decode-into-reused-value", in); v != nil {
+					st.Violate(v)
+					st.Class(v.Clause)
+				} else {
+					st.Class("as-fresh")
+				}
+			}
+		}
+		return true
+	})
+
 	// ---- C ----
 	sigma := append(append(gen.Chars("01aZ.+~-: "), "٣"), gen.AuditChars(nil, 2)...) // plus a non-ASCII decimal digit (unicode.IsDigit is true for it)
 	L := r.Pick(5, 7)
@@ -382,8 +403,53 @@ func Run(r *mc.Run) {
 	})
 }
 
+// ---------- D: decoding into a value that already holds a version ----------
+
+type ReuseIn struct {
+	First, Second string
+	Via           string // control | text | json
+}
+
+func checkReuse(scen string, in ReuseIn) *mc.Violation {
+	want, err := version.Parse(in.Second)
+	if err != nil {
+		return nil
+	}
+	var v version.Version
+	dec := func(s string) error {
+		switch in.Via {
+		case "text":
+			return v.UnmarshalText([]byte(s))
+		case "json":
+			b, _ := json.Marshal(s)
+			return json.Unmarshal(b, &v)
+		}
+		return v.UnmarshalControl(s)
+	}
+	var e1, e2 error
+	if p, msg := mc.Guard(func() { e1 = dec(in.First); e2 = dec(in.Second) }); p {
+		return mc.V(scen, "parse-returns", in, "no panic", msg)
+	}
+	_ = e1
+	if e2 != nil {
+		return mc.V(scen, "wellformed-accepted", in, fmt.Sprintf("%+v", want), "error: "+e2.Error())
+	}
+	if v != want {
+		return mc.V(scen, "parts-exact-into-reused-value", in, fmt.Sprintf("%+v", want), fmt.Sprintf("%+v", v))
+	}
+	return nil
+}
+
 func Replay(scenario string, raw json.RawMessage) []*mc.Violation {
 	switch {
+	case strings.HasPrefix(scenario, "D-"):
+		var in ReuseIn
+		if json.Unmarshal(raw, &in) == nil {
+			if v := checkReuse(scenario, in); v != nil {
+				return []*mc.Violation{v}
+			}
+		}
+		return nil
 	case strings.HasPrefix(scenario, "A-"):
 		var rt RTIn
 		if json.Unmarshal(raw, &rt) == nil && rt.Text != "" {
